@@ -35,6 +35,8 @@ type Profile struct {
 	RunTo       bool
 	Zip         bool
 	PadTo       bool
+	Taggers     bool
+	Joins       bool
 }
 
 type gen struct {
@@ -42,7 +44,8 @@ type gen struct {
 	p *Profile
 	w *WF
 	// available out-port streams
-	avail []availStream
+	avail   []availStream
+	origins int
 }
 
 type availStream struct {
@@ -50,9 +53,12 @@ type availStream struct {
 	n       int
 	ordered bool
 	param   bool
+	origin  int // streams with the same origin carry the same items (taggers)
 	// names of in-port placeholders needed for unique paths are handled by
 	// always including every input in the pattern
 }
+
+func (g *gen) newOrigin() int { g.origins++; return g.origins }
 
 func (g *gen) n(k int) int { return g.t.Choose(simrt.StGen, k, 0) }
 func (g *gen) flag(enabled bool) bool {
@@ -81,6 +87,8 @@ func (g *gen) swarm(p Profile) *Profile {
 	q.TwoSources = g.flag(p.TwoSources)
 	q.Zip = g.flag(p.Zip)
 	q.PadTo = g.flag(p.PadTo)
+	q.Taggers = g.flag(p.Taggers)
+	q.Joins = g.flag(p.Joins)
 	return &q
 }
 
@@ -132,7 +140,7 @@ func Generate(t *simrt.Tape, prof Profile) *WF {
 			w.Sources[p] = fmt.Sprintf("source %d %d\n", s, i)
 		}
 		w.Nodes = append(w.Nodes, node)
-		g.avail = append(g.avail, availStream{e: Edge{len(w.Nodes) - 1, "out"}, n: L, ordered: true})
+		g.avail = append(g.avail, availStream{e: Edge{len(w.Nodes) - 1, "out"}, n: L, ordered: true, origin: g.newOrigin()})
 	}
 	if g.p.ParamSrc {
 		node := Node{Name: "psrc", Kind: KParamSrc}
@@ -140,7 +148,7 @@ func Generate(t *simrt.Tape, prof Profile) *WF {
 			node.Vals = append(node.Vals, fmt.Sprintf("q%d", i))
 		}
 		w.Nodes = append(w.Nodes, node)
-		g.avail = append(g.avail, availStream{e: Edge{len(w.Nodes) - 1, "out"}, n: L, ordered: true, param: true})
+		g.avail = append(g.avail, availStream{e: Edge{len(w.Nodes) - 1, "out"}, n: L, ordered: true, param: true, origin: g.newOrigin()})
 	}
 	nprocs := 1 + g.n(max(1, prof.MaxProcs))
 	sinkless := false
@@ -178,12 +186,24 @@ func (g *gen) addProc(j int, sinkless *bool) {
 	if p.NoPort {
 		kinds = append(kinds, "noport")
 	}
+	if p.Joins {
+		kinds = append(kinds, "join")
+	}
 	kind := kinds[g.n(len(kinds))]
 	fs := g.fileStreams()
 	pick := func() availStream {
 		// prefer the most recent streams (deeper graphs) but allow any
 		k := g.n(len(fs))
-		return g.avail[fs[len(fs)-1-k]]
+		a := g.avail[fs[len(fs)-1-k]]
+		if p.Taggers && g.n(3) == 1 {
+			// route the stream through a tagging component
+			tn := Node{Name: fmt.Sprintf("tag%d", len(w.Nodes)), Kind: KMapToTags, TagKey: fmt.Sprintf("k%d", len(w.Nodes)),
+				Ins: []InSpec{{Name: "in", From: []Edge{a.e}}}, Outs: []OutSpec{{Name: "out"}}}
+			w.Nodes = append(w.Nodes, tn)
+			a = availStream{e: Edge{len(w.Nodes) - 1, "out"}, n: a.n, ordered: a.ordered, origin: a.origin}
+			g.avail = append(g.avail, a)
+		}
+		return a
 	}
 	n := 1
 	ordered := true
@@ -215,10 +235,12 @@ func (g *gen) addProc(j int, sinkless *bool) {
 		}
 		node.Ins = []InSpec{{Name: "a", From: []Edge{a.e}}, {Name: "b", From: []Edge{b.e}}}
 		n, ordered = a.n, true
-		patParts = append(patParts, "{i:a}", "{i:b|basename}")
+		// aligned streams: the first input identifies the pair (keeps names short)
+		patParts = append(patParts, "{i:a}")
 	case "fanin":
 		a := pick()
 		from := []Edge{a.e}
+		origins := []int{a.origin}
 		n, ordered = a.n, a.ordered
 		extra := 1 + g.n(2)
 		for x := 0; x < extra; x++ {
@@ -229,6 +251,12 @@ func (g *gen) addProc(j int, sinkless *bool) {
 					dup = true
 				}
 			}
+			for _, o := range origins {
+				if o == b.origin {
+					dup = true // same items via another route: would be duplicates in the merged port
+				}
+			}
+			origins = append(origins, b.origin)
 			if dup {
 				continue
 			}
@@ -238,6 +266,21 @@ func (g *gen) addProc(j int, sinkless *bool) {
 		}
 		node.Ins = []InSpec{{Name: "a", From: from}}
 		patParts = append(patParts, "{i:a}")
+	case "join":
+		a := pick()
+		if !a.ordered {
+			node.Ins = []InSpec{{Name: "a", From: []Edge{a.e}}}
+			n, ordered = a.n, a.ordered
+			patParts = append(patParts, "{i:a}")
+			break
+		}
+		sn := Node{Name: fmt.Sprintf("sub%d", len(w.Nodes)), Kind: KStreamToSub,
+			Ins: []InSpec{{Name: "in", From: []Edge{a.e}}}, Outs: []OutSpec{{Name: "substream"}}}
+		w.Nodes = append(w.Nodes, sn)
+		seps := []string{" ", ",", ":"}
+		node.Ins = []InSpec{{Name: "a", From: []Edge{{len(w.Nodes) - 1, "substream"}}, Join: true, Sep: seps[g.n(len(seps))]}}
+		n, ordered = 1, true
+		patParts = append(patParts, "joined")
 	case "paramonly":
 		n = 1 + g.n(3)
 	case "noport":
@@ -305,13 +348,13 @@ func (g *gen) addProc(j int, sinkless *bool) {
 	if p.Cores && g.n(2) == 1 {
 		node.Cores = 1 + g.n(w.MaxTasks)
 	}
-	if p.Custom && nouts > 0 && g.n(3) == 1 {
+	if p.Custom && nouts > 0 && !(len(node.Ins) > 0 && node.Ins[0].Join) && g.n(3) == 1 {
 		node.Custom = 1
 		if p.CustomIdiom && g.n(2) == 1 {
 			node.Custom = 2
 		}
 	}
-	if p.Extras && node.Custom == 0 && g.n(3) == 1 {
+	if p.Extras && node.Custom == 0 && !(len(node.Ins) > 0 && node.Ins[0].Join) && g.n(3) == 1 {
 		node.Extras = []string{fmt.Sprintf("extra_%s_%s.log", name, "{i:a|basename}")}
 		if len(node.Ins) == 0 {
 			node.Extras = nil
@@ -326,6 +369,6 @@ func (g *gen) addProc(j int, sinkless *bool) {
 	w.Nodes = append(w.Nodes, node)
 	idx := len(w.Nodes) - 1
 	for _, o := range node.Outs {
-		g.avail = append(g.avail, availStream{e: Edge{idx, o.Name}, n: n, ordered: ordered})
+		g.avail = append(g.avail, availStream{e: Edge{idx, o.Name}, n: n, ordered: ordered, origin: g.newOrigin()})
 	}
 }
